@@ -145,6 +145,16 @@ def is_blank(C, s):
     return None
 
 
+def raw_buffer_access(s):
+    """Statement touches this.buffer_ other than through buffer_[computeCellLinearIndex_(..)] and nothing in it depends on the offset field."""
+    mentions = any(x.get('k') == 'Member' and x.get('name') == 'buffer_' for x in walk(s))
+    if not mentions:
+        return False
+    through_map = any(x.get('k') == 'MCall' and x.get('m') in ('computeCellLinearIndex_', 'wrapCellIndexes_') for x in walk(s))
+    offset_dep = any(x.get('k') == 'Member' and x.get('name') == 'indexOffsetsAlongAxes_' for x in walk(s))
+    return not through_map and not offset_dep
+
+
 def congruent(a, b, n):
     """a == b modulo n for polynomial expressions with Mod(., n) sub-terms (Mod(x,n) ~ x; multiples of n vanish)."""
     def strip_mod(x):
@@ -413,6 +423,11 @@ def check_block(fx, R, C, cname, f, k, dim, blk):
             if ap and C.lhs_symbol(ap[0]) == idxk:
                 ev['body'].append(('advance', C.ev(ap[1]), list(loops), s['loc']))
                 return
+        if raw_buffer_access(s):
+            R.violated('O4', inst + ':raw-buffer-access', 'the grid storage is written directly (%s) with a position that does not go through the wrap map and does not depend on the '
+                       'index offset: a logical index is used as a physical one, wrong as soon as the accumulated offset of this axis is non-zero' % pp(s.get('e'))[:160],
+                       fx.rel(s['loc']), 'E-STATE')
+            return
         R.undecided('O5', inst, 'statement not recognised inside a blanking loop: %s' % fx.rel(s['loc']))
 
     visit(blk['t'], [], False)
